@@ -62,6 +62,8 @@ type EntrySpec struct {
 	TimeoutMS  int      `json:"timeout_ms"`
 	MaxSymAlloc int     `json:"max_sym_alloc"`
 	NoReplay   bool     `json:"no_replay"`
+	SchedFirst bool     `json:"sched_first"` // no scheduler choice: when a goroutine blocks or exits the first runnable one continues (the harness argues elsewhere that the outcome does not depend on the schedule)
+	FreeSchedule bool   `json:"free_schedule"` // native replay without the forced schedule (the native run has other scheduling points than the symbolic one, e.g. real code where the symbolic run uses models)
 }
 
 type KnownFinding struct {
@@ -565,7 +567,7 @@ func checkSpec(hdir, prop, tier, only string, verbose bool, seed int64, acc *acc
 			problems = append(problems, "entry not found: "+e.Name)
 			continue
 		}
-		cfg := sym.Config{Unwind: e.Unwind, MaxPaths: e.MaxPaths, MaxPreempt: e.MaxPreempt, Solver: spec.Solver, InitPkgs: spec.Init,
+		cfg := sym.Config{Unwind: e.Unwind, MaxPaths: e.MaxPaths, MaxPreempt: e.MaxPreempt, SchedFirst: e.SchedFirst, Solver: spec.Solver, InitPkgs: spec.Init,
 			Skip: set(spec.Skip), Havoc: set(spec.Havoc), Models: spec.Models, Seed: seed, Tier: tierN, MapOrderChoice: e.MapOrder,
 			TimeoutMS: e.TimeoutMS, MaxSymAlloc: e.MaxSymAlloc, WitnessModels: true, Workers: 12, InstrPkg: spec.Package}
 		if e.Solver != "" {
@@ -611,6 +613,9 @@ func checkSpec(hdir, prop, tier, only string, verbose bool, seed int64, acc *acc
 		for _, id := range sortedKeys(r.Findings) {
 			f := r.Findings[id]
 			rf := &ReplayFile{Harness: hdir, Property: prop, Entry: e.Name, Expect: "finding " + id, Values: f.Values, Pos: f.Pos, Sched: f.Sched}
+			if e.FreeSchedule {
+				rf.Sched = nil
+			}
 			path := writeReplay(prop, rf)
 			ok := e.NoReplay
 			if !e.NoReplay {
@@ -645,6 +650,9 @@ func checkSpec(hdir, prop, tier, only string, verbose bool, seed int64, acc *acc
 			}
 			tried[v.ID]++
 			rf := &ReplayFile{Harness: hdir, Property: prop, Entry: e.Name, Expect: "violated " + v.ID, Values: v.Values, Detail: v.Detail, Pos: v.Pos, Trace: v.Trace, Sched: v.Sched}
+			if e.FreeSchedule {
+				rf.Sched = nil
+			}
 			path := writeReplay(prop, rf)
 			os.WriteFile(strings.TrimSuffix(path, ".json")+".smt2", []byte(v.Script), 0o644)
 			ok := e.NoReplay
